@@ -40,9 +40,10 @@ def build_qsmtpd(ctx, defs=(), name='h_qsmtpd'):
         ctx.unshown.append('harness %s does not build against the working tree: %s' % (name, bad[0][1][-1200:]))
         return None
     out = os.path.join(ctx.scratch, name)
-    r = vlib.sh(['gcc', '-fsanitize=address,undefined', '-o', out] + [o for o, _, _ in res] + ['-lssl', '-lcrypto', '-lowfat'])
+    cov = ['--coverage'] if vlib.COV else []
+    r = vlib.sh(['gcc', '-fsanitize=address,undefined'] + cov + ['-o', out] + [o for o, _, _ in res] + ['-lssl', '-lcrypto', '-lowfat'])
     if r.returncode != 0:
-        r = vlib.sh(['gcc', '-fsanitize=address,undefined', '-o', out] + [o for o, _, _ in res] + ['-lssl', '-lcrypto'])
+        r = vlib.sh(['gcc', '-fsanitize=address,undefined'] + cov + ['-o', out] + [o for o, _, _ in res] + ['-lssl', '-lcrypto'])
     if r.returncode != 0:
         ctx.unshown.append('harness %s does not link: %s' % (name, r.stdout[-1500:]))
         return None
